@@ -18,6 +18,7 @@ import (
 	fxtypes "github.com/functionx/fx-core/v8/types"
 
 	erc20types "github.com/functionx/fx-core/v8/x/erc20/types"
+	fxstakingtypes "github.com/functionx/fx-core/v8/x/staking/types"
 	"verif/harness/chain"
 	"verif/harness/core"
 	"verif/harness/evmasm"
@@ -690,6 +691,29 @@ func (r *c09Run) compare(cons []pcontract, a *execOut, gas uint64, desc, class s
 			}
 		}
 		r.res.Violate(key, "program %s run with gas limit %d (tx ok=%v, vm error %q, kept steps %v): state differs from the twin in which the discarded calls never ran:\n%s", desc, gas, txOK, a.res.VmError(), a.slots, strings.Join(lines, "\n"))
+	}
+	if txOK {
+		// every kept withdraw call reports itself by a Withdraw log of the staking precompile (also one that pays nothing)
+		wantW, gotW := 0, 0
+		for i, pc := range cons {
+			for j, st := range pc.Steps {
+				if keep[i][j] && strings.HasPrefix(st.Label, "staking.withdraw") {
+					wantW++
+				}
+			}
+		}
+		wid := strings.ToLower(fxstakingtypes.GetABI().Events["Withdraw"].ID.Hex())
+		for _, l := range a.logs {
+			if strings.Contains(strings.ToLower(l), wid) {
+				gotW++
+			}
+		}
+		if wantW > 0 {
+			r.res.Count("kept_withdraw_calls_checked_for_their_log", int64(wantW))
+		}
+		if gotW < wantW {
+			r.res.Violate("C09/kept-call-without-its-effects/staking.withdraw", "program %s (gas %d): %d withdraw calls were kept by the EVM but only %d Withdraw logs were emitted", desc, gas, wantW, gotW)
+		}
 	}
 	if txOK && strings.Join(a.logs, "\n") != strings.Join(b.logs, "\n") {
 		r.res.Violate("C09/precompile-logs-differ/"+c09Culprit(cons, a, keep, txOK), "program %s (gas %d): precompile logs of the execution (%d) differ from the twin's (%d)", desc, gas, len(a.logs), len(b.logs))
